@@ -132,7 +132,8 @@ DLitItems(libs, procs, items, k) ==
 
 \* validity.  A module is compiled as a whole when one of its procedures is first needed, so a source is valid iff every
 \* module it (transitively) loads is: names resolve to exported procedures, no import cycle, local indices in range,
-\* `call` / `syscall` / `procref` not inside a kernel compilation, `caller` only inside one, `syscall` only to kernel exports.
+\* `call` / `syscall` / `procref` not inside a kernel compilation, `caller` only in the kernel module itself, `syscall` only to
+\* kernel exports.
 RECURSIVE DItemsOk(_, _, _, _, _, _, _), DLoads(_, _, _, _)
 DNameOk(libs, kern, m, n, stack, fuel) ==
   /\ fuel > 0 /\ Provided(libs, m) /\ m # KPath
@@ -154,7 +155,9 @@ DItemsOk(libs, kern, procs, pi, items, stack, k) ==
       [] it.t \in {"xcall", "xref"} -> DNameOk(libs, kern, it.m, it.n, stack, Fuel) /\ ~kern
       [] it.t = "lit" -> TRUE
       [] it.t = "sys" -> ~kern /\ HasKernel /\ LET i == ProcIdx(Mod(KPath), it.n) IN i # 0 /\ Mod(KPath).procs[i].export
-      [] it.t = "caller" -> kern
+      \* execution_contexts.md: "unlike procedures in regular library modules, procedures in a kernel module can use the caller
+      \* instruction" - the module being compiled must be the kernel module itself, not a library module a kernel loads
+      [] it.t = "caller" -> kern /\ stack # <<>> /\ stack[Len(stack)] = KPath
       [] OTHER -> TRUE
 DKernelOk(libs) == ~HasKernel \/ DLoads(libs, TRUE, KPath, <<>>)
 \* a program: body = pseudo-procedure after its local procedures
@@ -214,7 +217,7 @@ Items(st, ctx, done, locals, items, k, cur) ==
     IN
     CASE it.t = "op" -> Add(<<"op", it.k>>)
       [] it.t = "loc" -> IF it.k < locals THEN Add(<<"loc", locals - 1 - it.k>>) ELSE Fail(st, "ParamOutOfBounds")
-      [] it.t = "caller" -> IF ctx.kern THEN Add(<<"caller", 0>>) ELSE Fail(st, "CallerOutOfKernel")
+      [] it.t = "caller" -> IF ctx.kern /\ ctx.stack # <<>> /\ ctx.stack[Len(ctx.stack)] = KPath THEN Add(<<"caller", 0>>) ELSE Fail(st, "CallerOutOfKernel")
       [] it.t = "lit" -> Go(st, cur.code \o RefElems(DTarget(AllLibs, it)), cur.cs)
       [] it.t \in {"exec", "call", "ref"} ->
            IF it.i > Len(done) THEN Fail(st, "LocalProcNotFound")
